@@ -65,9 +65,22 @@ pub fn digests(seed: u64, n: usize) -> Vec<String> {
         c.shim = Some(ShimCfg { seed: t.hash_seed, plan, clock: t.clock.clone().or(Some("1700000000000000000:1000".into())), junk: t.junk, budget: None, ..Default::default() });
         let r = run_child(&dir, &c);
         let log = std::fs::read(dir.join("h.csv")).unwrap_or_default();
+        // every eighth case: the cooperative scheduler itself — two live compiles of the same AST into one file under a seeded
+        // schedule; the sequence of released events, both exits and the file must be the same in every process and at every worker count
+        let mut sched_digest = 0u64;
+        if i % 8 == 0 {
+            if let Some(json) = super::vm::parse(&source).ok().and_then(|a| crate::ASTSerializer::JSON.serialize(&a).ok()) {
+                std::fs::write(dir.join("x.json"), json).unwrap();
+                let mut k = Child::new(t.profile, &["compile", "x.json", "-o", "of.bc"]);
+                k.shim = Some(ShimCfg { seed: t.hash_seed, ..Default::default() });
+                let choices: Vec<u8> = (0..10).map(|_| rng.below(2) as u8).collect();
+                let (ra, rb, order) = super::proc::run_scheduled_pair(&dir, &k, &k, "openw,writef,rename,flock,unlink", &choices);
+                sched_digest = digest_of(&(order, ra.exit.show(), rb.exit.show(), std::fs::read(dir.join("of.bc")).unwrap_or_default()));
+            }
+        }
         let _ = std::fs::remove_dir_all(&dir);
         let _ = Profile::Debug;
-        digest_of(&(r.exit.show(), &r.stdout, r.stderr.is_empty(), &log, &r.trace))
+        digest_of(&(r.exit.show(), &r.stdout, r.stderr.is_empty(), &log, &r.trace, sched_digest))
     });
     for (i, d) in b.iter().enumerate() { lines.push(format!("B {} {}", i, hex64(*d))); }
     lines
